@@ -78,17 +78,21 @@ extern ssize_t mpt_memtok(const struct iovec *data, size_t ndat, const char *tok
 				break;
 			/* continue until end of line */
 			do {
-				while ( pos++ < len && *(++curr) != '\n' );
+				while ( ++pos < len && *(++curr) != '\n' );
 				
-				if ( pos <= len )
+				if ( pos < len )
 					break;
-				else if ( i >= ndat ) {
-					errno = EAGAIN; return -2;
-				}
+				/* continue in next non-empty data part */
+				do {
+					if ( i >= ndat ) {
+						errno = EAGAIN; return -2;
+					}
+					curr = data[i].iov_base;
+					len  = data[i++].iov_len;
+				} while ( !len );
 				pos  = 0;
-				curr = data[i].iov_base;
-				len  = data[i++].iov_len;
-				
+				if ( *curr == '\n' )
+					break;
 			} while ( 1 );
 		}
 		/* token is found */
